@@ -349,6 +349,10 @@ def verdict(ctx):
     if not (ctx.violations or ctx.proof_failures or ctx.corr_failures):
         print("OK property=%s tier=%s obligations=%d discharged=%d evaluations=%d wall=%.1fs" % (
             ctx.pid, ctx.tier, ctx.obligations, ctx.discharged, ctx.evaluations, time.time() - ctx.t0))
+        try:
+            os.remove(os.path.join(REPLAYS, "%s-%s-%d.json" % (ctx.pid, ctx.tier, ctx.seed)))
+        except OSError:
+            pass
         return 0
     os.makedirs(REPLAYS, exist_ok=True)
     path = os.path.join(REPLAYS, "%s-%s-%d.json" % (ctx.pid, ctx.tier, ctx.seed))
